@@ -1,4 +1,6 @@
 import SnowModel.Drv.Util
+import SnowModel.Drv.C08
+import SnowModel.Drv.C17
 import SnowModel.Drv.C11
 import SnowModel.Drv.C15
 import SnowModel.Drv.C07
@@ -21,6 +23,8 @@ def dispatch (j : Json) : Except String Json := do
   else if m.startsWith "c07." then SnowModel.Drv.C07.handle m j
   else if m.startsWith "c15." then SnowModel.Drv.C15.handle m j
   else if m.startsWith "c11." then SnowModel.Drv.C11.handle m j
+  else if m.startsWith "c17." then SnowModel.Drv.C17.handle m j
+  else if m.startsWith "c08." then SnowModel.Drv.C08.handle m j
   else throw s!"unknown method {m}"
 
 partial def loop (hin hout : IO.FS.Stream) : IO Unit := do
